@@ -1,6 +1,6 @@
 (* ConcLin.v -- C05: linearizability of the concurrent model theories/Conc.v.
 
-   History variables live OUTSIDE the model (theories/Conc.v is unchanged).  For a schedule
+   History variables live OUTSIDE the model (theories/Conc.v carries none).  For a schedule
    [sched] run from [g0 = init_c thr0 cas0] the trace [ctrace g0 sched] is the list of states
        st 0, st 1, ..., st N        (N = NN = length sched,  st i = crun g0 (firstn i sched),
                                      [ctrace_nth], [st_trace], [ctrace_step], [ctrace_last])
@@ -15,7 +15,8 @@
          ends_at e t j r   : step e is the step of thread t that appends its j-th result, r
        both are unique ([starts_at_unique], [ends_at_unique]) and s <= e ([start_le_end]).
        [own q t c]: step q is a step of t parked at the pc where call c reads the key map
-       (GRead / GReread / GOpenL for get, GRead for get_size, RRead, RRRead for the removals).
+       (GRead / GReread / GOpenL for get and get_range, GRead for get_size, IRead for iteration,
+       RRead, RRRead for the removals).
 
    The invariant [HistInv] ([hist_inv], by induction along the trace; [hist_step] is the case
    analysis over the pcs) attaches to every pc of a call in progress what the thread has seen
@@ -25,13 +26,20 @@
      C05_calls_linearizable   there are s <= q <= e (s < q unless the call returns in the step
                               that takes it) with starts_at s, ends_at e, and the key map of
                               position q justifies the result ([lin_spec]); for get / get_size
-                              / remove / remove_range step q is a step of the thread itself
+                              / get_range / iteration / remove / remove_range step q is a
+                              step of the thread itself
                               ([own]); a call that reports a write has an entry in the write
                               log at a step strictly between s and e.
 
    P2  C05_read_linearizable (+ _cases), C05_get_size_linearizable : a get returns 'absent' or
        the complete content that the key held at position q, s < q <= e; the content is the
        blob stored under the key's hash at position q.
+       C05_range_read_linearizable : a get_range returns 'absent' or exactly the answer of the
+       sequential get_range ([range_answer_is_get_range]: theories/Range.v) on the item the key
+       held at position q and the blob stored under its hash at position q (the answers decided
+       from the item alone -- empty range, InvalidRange -- else the slice [a, min b size));
+       C05_iteration_is_a_snapshot : an iteration returns the key list of ONE position q.
+       The three reads share [rd_spec] / [rd_call]; the read pcs carry the mode (rmode).
    P5  C05_remove_linearizable, C05_remove_range_linearizable : presence / number of keys in
        range at the call's own scan step q, s < q <= e.
    P3' C05_km_is_fold_of_writes : at every position the key map is the fold (kstep = the
@@ -48,10 +56,11 @@
        by it: the get returns the put's content unless a write on the key applied after the
        put's own linearisation point intervenes; C05_put_applied_at_return.
    P6  examples by vm_compute (toyH, lex_cmp): a reader racing an overwriting writer under two
-       schedules, with the witness positions.
+       schedules, with the witness positions; P6': a get_range racing an overwrite by a longer
+       value (both outcomes) and an iteration racing a put, with the witness positions.
 
    FAULTS.  Everything holds for ARBITRARY fault parameters bad / ckbad.  A call that can fail
-   ([can_err]: put, remove, remove_range, get, checkpoint) may return the I/O error CErr:
+   ([can_err]: put, remove, remove_range, get, get_range, checkpoint) may return the I/O error CErr:
    [lin_spec c r m] = (can_err c /\ r = CErr) \/ [lin_spec0 c r m] (the fault-free spec), so the
    interval / own-step / write-log parts of C05_calls_linearizable also cover failed calls.
    The read / remove theorems (P2, P5) are stated for results other than CErr (r <> CErr).
@@ -62,7 +71,8 @@
    [may_write c r] = writes c r = true \/ r = CErr.  P3 needs rp <> CErr and ru <> CErr.
    Without faults no result is CErr (ConcProofs.no_faults_no_errors). *)
 From Cas Require Import Base Codec SMap Index Conc.
-From CasProofs Require Import SMapProofs IndexProofs ConcInv ConcProofs ConcExamples.
+From Cas Require Import Range.
+From CasProofs Require Import SMapProofs IndexProofs RangeProofs ConcInv ConcProofs ConcExamples.
 From Coq Require Import List NArith Lia Bool Arith Sorted.
 Import ListNotations.
 Open Scope N_scope.
@@ -128,13 +138,16 @@ Definition immediate (c : ccall) : bool :=
   match c with KAbort _ _ | KDelOrphans [] => true | _ => false end.
 (* calls whose result depends on the key map *)
 Definition observes (c : ccall) : bool :=
-  match c with KGet _ | KGetSize _ | KRemove _ | KRemoveRange _ _ => true | _ => false end.
+  match c with
+  | KGet _ | KGetSize _ | KGetRange _ _ _ | KIter | KRemove _ | KRemoveRange _ _ => true
+  | _ => false
+  end.
 (* the I/O error result *)
 Definition is_err (r : cres) : bool := match r with CErr => true | _ => false end.
 (* calls that may return an I/O error under the fault parameters bad / ckbad *)
 Definition can_err (c : ccall) : bool :=
   match c with
-  | KPut _ _ | KRemove _ | KRemoveRange _ _ | KGet _ | KCheckpoint => true
+  | KPut _ _ | KRemove _ | KRemoveRange _ _ | KGet _ | KGetRange _ _ _ | KCheckpoint => true
   | _ => false
   end.
 (* calls (with their result) that are KNOWN to have applied a write operation.  A removal
@@ -159,15 +172,35 @@ Proof. destruct r; try reflexivity. intros X; exfalso; apply X; reflexivity. Qed
 Lemma writes_can_err c r : writes c r = true -> can_err c = true.
 Proof. destruct c; cbn [writes can_err]; try reflexivity; destruct r; discriminate. Qed.
 (* the pc at which a call observes the key map *)
+(* a read in mode md observes the key map at its lookup (GRead), or at the lookup of its retry
+   (GReread), or -- having kept the state lock shared since that lookup -- at the open of the
+   retry (GOpenL) *)
+Definition rd_pc (k : bytes) (md : rmode) (p : pc) : Prop :=
+  p = GRead k md \/ (exists it, p = GReread k it md) \/ (exists it, p = GOpenL k it md).
 Definition lin_pc (c : ccall) (p : pc) : Prop :=
   match c with
-  | KGet k => p = GRead k false \/ (exists it, p = GReread k it) \/ (exists it, p = GOpenL k it)
-  | KGetSize k => p = GRead k true
+  | KGet k => rd_pc k MFull p
+  | KGetSize k => p = GRead k MSize
+  | KGetRange k a b => rd_pc k (MRange a b) p
+  | KIter => p = IRead
   | KRemove k => p = RRead k
   | KRemoveRange lo hi => p = RRRead lo hi
   | _ => True
   end.
-Definition rd_call (k : bytes) (so : bool) : ccall := if so then KGetSize k else KGet k.
+(* the call executed by a reader in mode md *)
+Definition rd_call (k : bytes) (md : rmode) : ccall :=
+  match md with MFull => KGet k | MSize => KGetSize k | MRange a b => KGetRange k a b end.
+
+Lemma lin_pc_gread k md : lin_pc (rd_call k md) (GRead k md).
+Proof. destruct md; cbn [rd_call lin_pc]; [left; reflexivity|reflexivity|left; reflexivity]. Qed.
+Lemma lin_pc_rd k md it p : pre_open md it = None -> rd_pc k md p -> lin_pc (rd_call k md) p.
+Proof. destruct md; cbn [rd_call lin_pc pre_open]; [auto|discriminate|auto]. Qed.
+Lemma can_err_rd k md it : pre_open md it = None -> can_err (rd_call k md) = true.
+Proof. destruct md; cbn [rd_call can_err pre_open]; [reflexivity|discriminate|reflexivity]. Qed.
+Lemma writes_rd k md r : writes (rd_call k md) r = false.
+Proof. destruct md; reflexivity. Qed.
+Lemma observes_rd k md : observes (rd_call k md) = true.
+Proof. destruct md; reflexivity. Qed.
 
 Lemma classic_wlockw (p : pc) : (exists w, p = WLockW w) \/ (forall w, p <> WLockW w).
 Proof. destruct p; try (right; intros w0 E; discriminate E). left. eexists. reflexivity. Qed.
@@ -281,8 +314,39 @@ Section Lin.
                              H x = ihash it /\ len x = isize it
       end
     | KGetSize k => r = CSize (option_map isize (sm_get cmp m k))
+    | KGetRange k a b =>
+      (* the sequential get_range on the item of k: the exits decided from the item alone
+         (empty range, invalid range), else the slice [a, min b size) of the item's blob *)
+      match sm_get cmp m k with
+      | None => r = CBytes None
+      | Some it =>
+        match pre_open (MRange a b) it with
+        | Some r' => r = r'
+        | None => exists x, r = CBytes (Some (slice x a (N.min b (isize it)))) /\
+                            In x (allc thr0 cas0) /\ H x = ihash it /\ len x = isize it
+        end
+      end
+    | KIter => r = CKeys (map fst m)
     | KDelOrphans _ => exists d s, r = COrphans d s
     end.
+  (* the three reads at once: what key map m allows a read of k in mode md to return *)
+  Definition rd_spec (md : rmode) (k : bytes) (r : cres) (m : smap item) : Prop :=
+    match sm_get cmp m k with
+    | None => r = absent_result md
+    | Some it =>
+      match pre_open md it with
+      | Some r' => r = r'
+      | None => exists x, r = read_result md it x /\ In x (allc thr0 cas0) /\
+                          H x = ihash it /\ len x = isize it
+      end
+    end.
+  Lemma rd_spec_lin md k r m : rd_spec md k r m -> lin_spec0 (rd_call k md) r m.
+  Proof.
+    unfold rd_spec. destruct md as [| |a b]; cbn [rd_call lin_spec0 pre_open absent_result read_result].
+    - destruct (sm_get cmp m k); auto.
+    - destruct (sm_get cmp m k); cbn [option_map]; auto.
+    - destruct (sm_get cmp m k); auto.
+  Qed.
   (* ... or the call is one that can fail and it returned the I/O error *)
   Definition lin_spec (c : ccall) (r : cres) (m : smap item) : Prop :=
     (can_err c = true /\ r = CErr) \/ lin_spec0 c r m.
@@ -836,10 +900,11 @@ Section Lin.
       | RRScanned ks =>
         exists lo hi, c = KRemoveRange lo hi /\
           exists q, (s < q < m)%nat /\ own q t c /\ ks = keys_in cmp (kmap q) lo hi
-      | GRead k so => c = rd_call k so
-      | GLooked k it so => c = rd_call k so /\ looked m s c t k it
-      | GOpen k it => c = KGet k /\ looked m s c t k it
-      | GReread k _ | GOpenL k _ => c = KGet k
+      | GRead k md => c = rd_call k md
+      | GLooked k it md => c = rd_call k md /\ looked m s c t k it
+      | GOpen k it md => c = rd_call k md /\ pre_open md it = None /\ looked m s c t k it
+      | GReread k it md | GOpenL k it md => c = rd_call k md /\ pre_open md it = None
+      | IRead => c = KIter
       | OLockI _ _ _ | ORead _ _ _ _ | OUnlink _ _ _ _ => exists hs, c = KDelOrphans hs
       end.
 
@@ -867,7 +932,8 @@ Section Lin.
         try (intros [A B]; split;
              [first [eapply wk_hist_mono | eapply lin_win_mono]; eassumption
              |first [eapply applied_mono | eapply ck_hist_mono]; eassumption]);
-        try (intros [A B]; split; [exact A|eapply looked_mono; eassumption]).
+        try (intros [A B]; split; [exact A|eapply looked_mono; eassumption]);
+        try (intros (A & B & C); split; [exact A|split; [exact B|eapply looked_mono; eassumption]]).
       - apply scanned_mono, L.
       - intros (lo & hi & E & q & B & O & K). exists lo, hi. split; [exact E|].
         exists q. split; [lia|]. split; assumption.
@@ -1018,44 +1084,61 @@ Section Lin.
       - (* GRead *) step_go Ht' n; subst c.
         + split; [reflexivity|]. exists n. split; [lia|]. split; [|assumption].
           apply (own_now n ts); [assumption|assumption|].
-          rewrite Hpc. destruct size_only; cbn [rd_call lin_pc]; auto.
+          rewrite Hpc. apply lin_pc_gread.
         + apply fin_here; try assumption.
-          * match goal with G : sm_get cmp (kmap n) k = None |- _ =>
-              destruct size_only; apply lin_ok; cbn [rd_call lin_spec0]; rewrite G; reflexivity end.
-          * intros _. rewrite Hpc. destruct size_only; cbn [rd_call lin_pc]; auto.
-          * destruct size_only; reflexivity.
+          * apply lin_ok, rd_spec_lin. unfold rd_spec.
+            match goal with G : sm_get cmp (kmap n) k = None |- _ => rewrite G end. reflexivity.
+          * intros _. rewrite Hpc. apply lin_pc_gread.
+          * apply writes_rd.
       - (* GLooked *) step_go Ht' n.
-        + destruct Hh as [-> (q & B & O & G)]. exists q. split; [lia|]. cbn [rd_call].
-          split; [apply lin_ok; cbn [lin_spec0]; rewrite G; reflexivity|].
-          split; [intros _; exact O|]. discriminate.
-        + destruct Hh as [-> L]. split; [reflexivity|]. eapply looked_mono; [|exact L]; lia.
+        + destruct Hh as [-> (q & B & O & G)]. exists q. split; [lia|].
+          split; [apply lin_ok, rd_spec_lin; unfold rd_spec; rewrite G;
+                  match goal with G2 : pre_open md it = Some _ |- _ => rewrite G2 end; reflexivity|].
+          split; [intros _; exact O|]. rewrite writes_rd. discriminate.
+        + destruct Hh as [-> L]. split; [reflexivity|]. split; [assumption|].
+          eapply looked_mono; [|exact L]; lia.
       - (* GOpen *) step_go Ht' n.
-        + destruct Hh as [-> (q & B & O & G)]. exists q. split; [lia|].
-          split; [apply lin_err; reflexivity|split; [intros _; exact O|discriminate]].
-        + destruct Hh as [-> (q & B & O & G)]. exists q. split; [lia|].
-          split; [|split; [intros _; exact O|discriminate]].
-          apply lin_ok; cbn [lin_spec0].
-          rewrite G. eexists. split; [reflexivity|]. eapply open_content; eassumption.
-        + apply Hh.
-      - (* GReread *) step_go Ht' n; subst c; [reflexivity|].
-        apply fin_here; try assumption.
-        + apply lin_ok; cbn [lin_spec0].
-          match goal with G : sm_get cmp (kmap n) k = None |- _ => rewrite G end. reflexivity.
-        + intros _. rewrite Hpc. cbn [lin_pc]. right; left. eexists. reflexivity.
-        + reflexivity.
-      - (* GOpenL *) step_go Ht' n; subst c.
+        + destruct Hh as (-> & Po & q & B & O & G). exists q. split; [lia|].
+          split; [apply lin_err; eapply can_err_rd; exact Po|split; [intros _; exact O|]].
+          rewrite writes_rd. discriminate.
+        + destruct Hh as (-> & Po & q & B & O & G). exists q. split; [lia|].
+          split; [|split; [intros _; exact O|rewrite writes_rd; discriminate]].
+          apply lin_ok, rd_spec_lin. unfold rd_spec.
+          rewrite G, Po. eexists. split; [reflexivity|]. eapply open_content; eassumption.
+        + destruct Hh as (-> & Po & _). split; [reflexivity|exact Po].
+      - (* GReread *) step_go Ht' n; destruct Hh as [-> Po].
+        + (* the current item answers by itself *)
+          apply fin_here; try assumption.
+          * apply lin_ok, rd_spec_lin. unfold rd_spec.
+            match goal with G : sm_get cmp (kmap n) k = Some _ |- _ => rewrite G end.
+            match goal with G2 : pre_open md _ = Some _ |- _ => rewrite G2 end. reflexivity.
+          * intros _. rewrite Hpc. eapply lin_pc_rd; [exact Po|]. right; left. eexists. reflexivity.
+          * apply writes_rd.
+        + split; [reflexivity|assumption].
         + apply fin_here; try assumption.
-          * apply lin_err; reflexivity.
-          * intros _. rewrite Hpc. cbn [lin_pc]. right; right. eexists. reflexivity.
-          * reflexivity.
+          * apply lin_ok, rd_spec_lin. unfold rd_spec.
+            match goal with G : sm_get cmp (kmap n) k = None |- _ => rewrite G end. reflexivity.
+          * intros _. rewrite Hpc. eapply lin_pc_rd; [exact Po|]. right; left. eexists. reflexivity.
+          * apply writes_rd.
+      - (* GOpenL *) step_go Ht' n; destruct Hh as [-> Po].
         + apply fin_here; try assumption.
-          * apply lin_ok; cbn [lin_spec0]. rewrite Pt. eexists. split; [reflexivity|].
+          * apply lin_err. eapply can_err_rd; exact Po.
+          * intros _. rewrite Hpc. eapply lin_pc_rd; [exact Po|]. right; right. eexists. reflexivity.
+          * apply writes_rd.
+        + apply fin_here; try assumption.
+          * apply lin_ok, rd_spec_lin. unfold rd_spec. rewrite Pt, Po.
+            eexists. split; [reflexivity|].
             eapply open_content; [exact I| |eassumption].
             eapply km_valid_item; eassumption.
-          * intros _. rewrite Hpc. cbn [lin_pc]. right; right. eexists. reflexivity.
-          * reflexivity.
+          * intros _. rewrite Hpc. eapply lin_pc_rd; [exact Po|]. right; right. eexists. reflexivity.
+          * apply writes_rd.
         + exfalso. apply (KX get_in) in Pt; [|apply (ci_idx _ _ _ _ _ _ I)].
           destruct (ci_nodangling _ _ _ _ _ _ I _ _ Pt) as (c1 & G1 & _). congruence.
+      - (* IRead *) step_go Ht' n. subst c.
+        apply fin_here; try assumption.
+        + apply lin_ok. reflexivity.
+        + intros _. rewrite Hpc. reflexivity.
+        + reflexivity.
       - (* OLockI *) step_go Ht' n; try exact Hh; destruct Hh as (hs & ->);
           (apply fin_here; try assumption;
            [apply lin_ok; cbn [lin_spec0]; eexists _, _; reflexivity|discriminate|reflexivity]).
@@ -1083,7 +1166,7 @@ Section Lin.
     Proof.
       intros Hn Ht Hpc Hc St Ht'. revert St. unfold cstep. unfold tst in Ht.
       rewrite Ht, Hpc, Hc.
-      destruct c as [k x|k x|k|lo hi|k|k| |hs]; try destruct hs;
+      destruct c as [k x|k x|k|lo hi|k|k|k a b| | |hs]; try destruct hs;
         intros E; injection E as <-; unfold finish, set_pc in Ht'; cbn [g_thr] in Ht';
         rewrite tget_tset_same in Ht'; injection Ht' as <-; cbn [t_pc t_calls t_res];
         (split; [reflexivity|]); (split; [reflexivity|]);
@@ -1441,6 +1524,87 @@ Section Lin.
       - left. split; [reflexivity|exact V].
     Qed.
 
+    (* P2 for get_range: a finished get_range(k, a, b) returns 'absent' or exactly what the
+       sequential get_range computes from the item (H x, len x) that the key held at position q
+       and from the blob x stored under that hash at position q: the answers decided from the
+       item alone (empty range / InvalidRange: [pre_open]), else the bytes [a, min b (len x)) of
+       x.  q is a step of the thread itself (its lookup, or the lookup / open of its retry),
+       strictly after the call was taken and not after its return: never a mixture of two
+       values, and never a range clamped with the size of one value and cut from another *)
+    Theorem C05_range_read_linearizable t j k a b r :
+      nth_error (prog t) j = Some (KGetRange k a b) -> final_res t j r -> r <> CErr ->
+      exists s e q, starts_at s t j (KGetRange k a b) /\ ends_at e t j r /\ (s < q <= e)%nat /\
+        own q t (KGetRange k a b) /\
+        ((r = CBytes None /\ val q k = None) \/
+         (exists x, val q k = Some (H x, len x) /\
+                    sm_get lex_cmp (g_cas (st q)) (H x) = Some x /\
+                    r = match pre_open (MRange a b) (mkItem (H x) (len x)) with
+                        | Some r' => r'
+                        | None => CBytes (Some (slice x a (N.min b (len x))))
+                        end)).
+    Proof.
+      intros Hc Hf NE. destruct (final_fin _ _ _ _ Hc Hf) as (s & e & q & A & B & _ & D & E & F & G & _).
+      exists s, e, q. split; [exact A|]. split; [exact B|].
+      split; [specialize (E eq_refl); lia|]. split; [apply G; reflexivity|].
+      apply lin_inv in F; [|exact NE].
+      cbn [lin_spec0] in F. unfold val. destruct (sm_get cmp (kmap q) k) as [it|] eqn:Gk.
+      - right.
+        destruct (C04_no_dangling H cmp cmp_refl cmp_eq cmp_antisym cmp_trans nops bad ckbad thr0 thr0_nodup
+                    cas0 cas0_sorted cas0_named NoCollideC (st q) (st_reach q) k it Gk)
+          as (x & Gc & Hh & Hl).
+        exists x. cbn [option_map]. rewrite Hh, Hl. split; [reflexivity|]. split; [exact Gc|].
+        destruct it as [h sz]. cbn [ihash isize] in *. subst h sz.
+        destruct (pre_open (MRange a b) (mkItem (H x) (len x))); [exact F|].
+        destruct F as (x' & -> & Ix' & Hh' & _). cbn [isize].
+        apply (lex_get_in _ _ _ (ci_cas_sorted _ _ _ _ _ _ (st_inv q))) in Gc.
+        destruct (ci_cas_named _ _ _ _ _ _ (st_inv q) _ _ Gc) as [_ Ix].
+        rewrite (NoCollideC x' x Ix' Ix Hh'). reflexivity.
+      - left. split; [exact F|reflexivity].
+    Qed.
+
+    Corollary C05_range_read_linearizable_thr0 t cs ts j k a b r :
+      In (t, cs) thr0 -> nth_error cs j = Some (KGetRange k a b) ->
+      tget (g_thr (run g0 sched)) t = Some ts -> nth_error (t_res ts) j = Some r -> r <> CErr ->
+      exists s e q, starts_at s t j (KGetRange k a b) /\ ends_at e t j r /\ (s < q <= e)%nat /\
+        ((r = CBytes None /\ val q k = None) \/
+         (exists x, val q k = Some (H x, len x) /\
+                    sm_get lex_cmp (g_cas (st q)) (H x) = Some x /\
+                    r = match pre_open (MRange a b) (mkItem (H x) (len x)) with
+                        | Some r' => r'
+                        | None => CBytes (Some (slice x a (N.min b (len x))))
+                        end)).
+    Proof.
+      intros I Hc Ht Hr NE. rewrite <- (prog_thr0 t cs I) in Hc.
+      destruct (C05_range_read_linearizable t j k a b r Hc (ex_intro _ ts (conj Ht Hr)) NE)
+        as (s & e & q & A & B & C & _ & K).
+      exists s, e, q. split; [exact A|]. split; [exact B|]. split; [exact C|exact K].
+    Qed.
+
+    (* iteration returns the key list of ONE position q (a snapshot): the thread's own IRead
+       step, strictly after the call was taken and not after its return *)
+    Theorem C05_iteration_is_a_snapshot t j r :
+      nth_error (prog t) j = Some KIter -> final_res t j r ->
+      exists s e q, starts_at s t j KIter /\ ends_at e t j r /\ (s < q <= e)%nat /\
+        own q t KIter /\ r = CKeys (map fst (kmap q)).
+    Proof.
+      intros Hc Hf. destruct (final_fin _ _ _ _ Hc Hf) as (s & e & q & A & B & _ & D & E & F & G & _).
+      exists s, e, q. split; [exact A|]. split; [exact B|].
+      split; [specialize (E eq_refl); lia|]. split; [apply G; reflexivity|].
+      apply lin_inv' in F; [exact F|reflexivity].
+    Qed.
+
+    Corollary C05_iteration_is_a_snapshot_thr0 t cs ts j r :
+      In (t, cs) thr0 -> nth_error cs j = Some KIter ->
+      tget (g_thr (run g0 sched)) t = Some ts -> nth_error (t_res ts) j = Some r ->
+      exists s e q, starts_at s t j KIter /\ ends_at e t j r /\ (s < q <= e)%nat /\
+        r = CKeys (map fst (kmap q)).
+    Proof.
+      intros I Hc Ht Hr. rewrite <- (prog_thr0 t cs I) in Hc.
+      destruct (C05_iteration_is_a_snapshot t j r Hc (ex_intro _ ts (conj Ht Hr)))
+        as (s & e & q & A & B & C & _ & K).
+      exists s, e, q. split; [exact A|]. split; [exact B|]. split; [exact C|exact K].
+    Qed.
+
     (* P5: remove reports the presence of the key as of its own scan step (parked at RRead) *)
     Theorem C05_remove_linearizable t j k r :
       nth_error (prog t) j = Some (KRemove k) -> final_res t j r -> r <> CErr ->
@@ -1722,6 +1886,10 @@ Print Assumptions C05_read_linearizable.
 Print Assumptions C05_read_linearizable_cases.
 Print Assumptions C05_read_linearizable_thr0.
 Print Assumptions C05_get_size_linearizable.
+Print Assumptions C05_range_read_linearizable.
+Print Assumptions C05_range_read_linearizable_thr0.
+Print Assumptions C05_iteration_is_a_snapshot.
+Print Assumptions C05_iteration_is_a_snapshot_thr0.
 Print Assumptions C05_remove_linearizable.
 Print Assumptions C05_remove_range_linearizable.
 Print Assumptions C05_km_is_fold_of_writes.
@@ -1731,6 +1899,28 @@ Print Assumptions C05_write_order_respects_real_time.
 Print Assumptions C05_final_is_linearization.
 Print Assumptions C05_put_visible.
 Print Assumptions C05_put_applied_at_return.
+
+(* ------------------------------------------------------------------------------------ *)
+(* the answer of C05_range_read_linearizable is the answer of the sequential model of get_range
+   (theories/Range.v: CasInner::get_range + read_blob_range with its read_at loop, for every
+   short-read behaviour [chunk] of the kernel) on the blob x with recorded size len x *)
+Definition cres_of_rres (r : rres) : cres :=
+  match r with RBytes b => CBytes (Some b) | RInvalidRange => CInvalid end.
+
+Lemma range_answer_is_get_range (chunk : N -> N -> N) (h x : bytes) (a b : N) :
+  match pre_open (MRange a b) (mkItem h (len x)) with
+  | Some r' => r'
+  | None => CBytes (Some (slice x a (N.min b (len x))))
+  end = cres_of_rres (fst (get_range chunk (len x) x a b)).
+Proof.
+  cbn [pre_open isize]. unfold get_range.
+  destruct (len x <=? a) eqn:E1; [reflexivity|]. apply N.leb_gt in E1.
+  destruct (N.ltb_spec (N.min b (len x)) a) as [L|L].
+  - rewrite read_blob_range_invalid by exact L. reflexivity.
+  - rewrite read_blob_range_ok by exact L. cbn [fst cres_of_rres].
+    rewrite slice_inside; [reflexivity|exact L|apply N.le_min_r].
+Qed.
+Print Assumptions range_answer_is_get_range.
 
 (* ------------------------------------------------------------------------------------ *)
 (* P6: a reader racing an overwriting writer, by computation (toyH, lex_cmp) *)
@@ -1769,7 +1959,7 @@ Notation wlogR := (wlog toyH lex_cmp 100 nobad false progR []).
 Example race1_trace :
   tstR schedR1 9 2%nat = Some (mkT [KGet [1]] Idle []) /\
   valR schedR1 10 [1] = Some (toyH [10], 1) /\
-  tstR schedR1 24 2%nat = Some (mkT [] (GOpenL [1] (mkItem (toyH [20; 21]) 2)) []) /\
+  tstR schedR1 24 2%nat = Some (mkT [] (GOpenL [1] (mkItem (toyH [20; 21]) 2) MFull) []) /\
   valR schedR1 24 [1] = Some (toyH [20; 21], 2) /\
   tstR schedR1 25 2%nat = Some (mkT [] Idle [CBytes (Some [20; 21])]) /\
   wlogR schedR1 25 = [mkWl 6 1 0 (RPut [1] (toyH [10]) 1); mkWl 17 1 1 (RPut [1] (toyH [20; 21]) 2)] /\
@@ -1797,7 +1987,7 @@ Qed.
    the overwrite is linearised at its WLockW step 17, between q and the reader's return *)
 Example race2_trace :
   tstR schedR2 9 2%nat = Some (mkT [KGet [1]] Idle []) /\
-  tstR schedR2 10 2%nat = Some (mkT [] (GRead [1] false) []) /\
+  tstR schedR2 10 2%nat = Some (mkT [] (GRead [1] MFull) []) /\
   valR schedR2 10 [1] = Some (toyH [10], 1) /\
   valR schedR2 19 [1] = Some (toyH [20; 21], 2) /\
   tstR schedR2 20 2%nat = Some (mkT [] Idle [CBytes (Some [10])]) /\
@@ -1858,3 +2048,141 @@ Print Assumptions race2_trace.
 Print Assumptions race2_witness.
 Print Assumptions progR_reads_linearizable.
 Print Assumptions progR_final_linearization.
+
+(* ------------------------------------------------------------------------------------ *)
+(* P6': a ranged read racing an overwrite by a LONGER value, and an iteration racing a put
+   (program ConcExamples.progRI: thread 1 puts [1] := 3 bytes, [1] := 5 bytes, [2] := 1 byte;
+   thread 2 reads the range [1, 4) of [1]; thread 3 iterates) *)
+Notation tstRI := (tst toyH lex_cmp 100 nobad false progRI []).
+Notation valRI := (val toyH lex_cmp 100 nobad false progRI []).
+Notation kmapRI := (kmap toyH lex_cmp 100 nobad false progRI []).
+
+(* old value: the reader looks the key up at step 10 (3-byte item), the overwrite is applied at
+   step 18, the reader opens the old blob at step 20 and returns bytes [1, min 4 3) of it;
+   witness q = 10 *)
+Example range_race_old_witness :
+  starts_at toyH lex_cmp 100 nobad false progRI [] schedRI_old 9 2 0 (KGetRange [1] 1 4) /\
+  ends_at toyH lex_cmp 100 nobad false progRI [] schedRI_old 20 2 0 (CBytes (Some [11; 12])) /\
+  own toyH lex_cmp 100 nobad false progRI [] schedRI_old 10 2 (KGetRange [1] 1 4) /\
+  valRI schedRI_old 10 [1] = Some (toyH [10; 11; 12], len [10; 11; 12]) /\
+  valRI schedRI_old 20 [1] = Some (toyH [20; 21; 22; 23; 24], 5) /\
+  CBytes (Some [11; 12]) = CBytes (Some (slice [10; 11; 12] 1 (N.min 4 (len [10; 11; 12])))).
+Proof.
+  split; [|split; [|split; [|split; [|split]]]].
+  - split; [vm_compute; lia|]. split; [reflexivity|]. eexists. split; [vm_compute; reflexivity|].
+    cbn. repeat split.
+  - split; [vm_compute; lia|]. split; [reflexivity|]. eexists _, _.
+    split; [vm_compute; reflexivity|]. split; [vm_compute; reflexivity|]. cbn. repeat split.
+  - split; [vm_compute; lia|]. split; [reflexivity|]. eexists. split; [vm_compute; reflexivity|].
+    cbn. left. reflexivity.
+  - vm_compute. reflexivity.
+  - vm_compute. reflexivity.
+  - vm_compute. reflexivity.
+Qed.
+
+(* new value: the old blob is gone when the reader opens it (step 22); the retry looks the key
+   up again (step 23: the 5-byte item) and opens its blob under the shared lock (step 24):
+   bytes [1, min 4 5) of the NEW value; witness q = 24 *)
+Example range_race_new_witness :
+  starts_at toyH lex_cmp 100 nobad false progRI [] schedRI_new 9 2 0 (KGetRange [1] 1 4) /\
+  ends_at toyH lex_cmp 100 nobad false progRI [] schedRI_new 24 2 0 (CBytes (Some [21; 22; 23])) /\
+  own toyH lex_cmp 100 nobad false progRI [] schedRI_new 24 2 (KGetRange [1] 1 4) /\
+  valRI schedRI_new 10 [1] = Some (toyH [10; 11; 12], 3) /\
+  valRI schedRI_new 24 [1] = Some (toyH [20; 21; 22; 23; 24], len [20; 21; 22; 23; 24]) /\
+  CBytes (Some [21; 22; 23]) =
+    CBytes (Some (slice [20; 21; 22; 23; 24] 1 (N.min 4 (len [20; 21; 22; 23; 24])))).
+Proof.
+  split; [|split; [|split; [|split; [|split]]]].
+  - split; [vm_compute; lia|]. split; [reflexivity|]. eexists. split; [vm_compute; reflexivity|].
+    cbn. repeat split.
+  - split; [vm_compute; lia|]. split; [reflexivity|]. eexists _, _.
+    split; [vm_compute; reflexivity|]. split; [vm_compute; reflexivity|]. cbn. repeat split.
+  - split; [vm_compute; lia|]. split; [reflexivity|]. eexists. split; [vm_compute; reflexivity|].
+    cbn. right; right. eexists. reflexivity.
+  - vm_compute. reflexivity.
+  - vm_compute. reflexivity.
+  - vm_compute. reflexivity.
+Qed.
+
+(* the iteration racing the put of key [2] (applied at step 26): run before it (step 25) it
+   returns the keys of position 25, run after it (step 27) those of position 27 *)
+Definition schedIt_before : list nat := schedI0 ++ repeat 1%nat 5 ++ [3%nat].
+Definition schedIt_after : list nat := schedI0 ++ repeat 1%nat 7 ++ [3%nat].
+
+Example iter_race_witness :
+  starts_at toyH lex_cmp 100 nobad false progRI [] schedIt_before 19 3 0 KIter /\
+  ends_at toyH lex_cmp 100 nobad false progRI [] schedIt_before 25 3 0 (CKeys [[1]]) /\
+  own toyH lex_cmp 100 nobad false progRI [] schedIt_before 25 3 KIter /\
+  map fst (kmapRI schedIt_before 25) = [[1]] /\
+  starts_at toyH lex_cmp 100 nobad false progRI [] schedIt_after 19 3 0 KIter /\
+  ends_at toyH lex_cmp 100 nobad false progRI [] schedIt_after 27 3 0 (CKeys [[1]; [2]]) /\
+  own toyH lex_cmp 100 nobad false progRI [] schedIt_after 27 3 KIter /\
+  map fst (kmapRI schedIt_after 26) = [[1]] /\
+  map fst (kmapRI schedIt_after 27) = [[1]; [2]].
+Proof.
+  split; [|split; [|split; [|split; [|split; [|split; [|split; [|split]]]]]]].
+  - split; [vm_compute; lia|]. split; [reflexivity|]. eexists. split; [vm_compute; reflexivity|].
+    cbn. repeat split.
+  - split; [vm_compute; lia|]. split; [reflexivity|]. eexists _, _.
+    split; [vm_compute; reflexivity|]. split; [vm_compute; reflexivity|]. cbn. repeat split.
+  - split; [vm_compute; lia|]. split; [reflexivity|]. eexists. split; [vm_compute; reflexivity|].
+    cbn. reflexivity.
+  - vm_compute. reflexivity.
+  - split; [vm_compute; lia|]. split; [reflexivity|]. eexists. split; [vm_compute; reflexivity|].
+    cbn. repeat split.
+  - split; [vm_compute; lia|]. split; [reflexivity|]. eexists _, _.
+    split; [vm_compute; reflexivity|]. split; [vm_compute; reflexivity|]. cbn. repeat split.
+  - split; [vm_compute; lia|]. split; [reflexivity|]. eexists. split; [vm_compute; reflexivity|].
+    cbn. reflexivity.
+  - vm_compute. reflexivity.
+  - vm_compute. reflexivity.
+Qed.
+
+(* the general theorems on this program, for EVERY schedule *)
+Lemma progRI_no_err sched t j r :
+  final_res toyH lex_cmp 100 nobad false progRI [] sched t j r -> r <> CErr.
+Proof.
+  intros (ts & Ht & Hr) ->. apply nth_error_In in Hr. revert Hr.
+  apply (no_faults_no_errors toyH lex_cmp lex_refl lex_eq lex_antisym lex_trans 100 nobad false progRI
+           progRI_nodup [] I (fun h c (F : In (h, c) []) => match F with end) progRI_nocollide
+           _ (fun _ => eq_refl) eq_refl (ex_intro _ sched eq_refl) t ts Ht).
+Qed.
+
+Example progRI_range_reads_linearizable sched r :
+  final_res toyH lex_cmp 100 nobad false progRI [] sched 2 0 r ->
+  exists s e q, starts_at toyH lex_cmp 100 nobad false progRI [] sched s 2 0 (KGetRange [1] 1 4) /\
+    ends_at toyH lex_cmp 100 nobad false progRI [] sched e 2 0 r /\ (s < q <= e)%nat /\
+    own toyH lex_cmp 100 nobad false progRI [] sched q 2 (KGetRange [1] 1 4) /\
+    ((r = CBytes None /\ valRI sched q [1] = None) \/
+     (exists x, valRI sched q [1] = Some (toyH x, len x) /\
+                sm_get lex_cmp (g_cas (st toyH lex_cmp 100 nobad false progRI [] sched q)) (toyH x) = Some x /\
+                r = match pre_open (MRange 1 4) (mkItem (toyH x) (len x)) with
+                    | Some r' => r'
+                    | None => CBytes (Some (slice x 1 (N.min 4 (len x))))
+                    end)).
+Proof.
+  intros Hf.
+  apply (C05_range_read_linearizable toyH lex_cmp lex_refl lex_eq lex_antisym lex_trans 100 nobad false
+           progRI progRI_nodup [] I (fun h c (F : In (h, c) []) => match F with end) progRI_nocollide
+           sched 2 0 [1] 1 4 r); [reflexivity|exact Hf|].
+  eapply progRI_no_err; exact Hf.
+Qed.
+
+Example progRI_iteration_is_a_snapshot sched r :
+  final_res toyH lex_cmp 100 nobad false progRI [] sched 3 0 r ->
+  exists s e q, starts_at toyH lex_cmp 100 nobad false progRI [] sched s 3 0 KIter /\
+    ends_at toyH lex_cmp 100 nobad false progRI [] sched e 3 0 r /\ (s < q <= e)%nat /\
+    own toyH lex_cmp 100 nobad false progRI [] sched q 3 KIter /\
+    r = CKeys (map fst (kmapRI sched q)).
+Proof.
+  intros Hf.
+  apply (C05_iteration_is_a_snapshot toyH lex_cmp lex_refl lex_eq lex_antisym lex_trans 100 nobad false
+           progRI progRI_nodup [] I (fun h c (F : In (h, c) []) => match F with end) progRI_nocollide
+           sched 3 0 r); [reflexivity|exact Hf].
+Qed.
+
+Print Assumptions range_race_old_witness.
+Print Assumptions range_race_new_witness.
+Print Assumptions iter_race_witness.
+Print Assumptions progRI_range_reads_linearizable.
+Print Assumptions progRI_iteration_is_a_snapshot.
